@@ -6,6 +6,10 @@ LEVEL_NOTE = ("Trusted base: CPython 3.12 (/venv/bin/python), eval/tokenize/frac
               "oracles under /verif/vf, and that sfc_models imports from the /repo working tree (asserted at "
               "start, recorded in evidence).")
 CLAIMS = {
+ 'C16': ("snapshot-before/after monitors on readers under caller-side mutation and repeated rendering; in-situ wrappers during book-model reads",
+         "Held on K observed reader histories: every GetTimeSeries / GenerateCSVtext / CreateCsvString call is compared with the reference slice/table of a deep snapshot and the stored holders are compared after the call and after the caller mutates what was returned.", "3/C16"),
+ 'C19': ("reference renderer compared cell by cell, parse-back to format precision, row count after real solves",
+         "Held on K observed holders and solves: structural equality of the rendered table with an independent reference renderer over ragged/extreme synthetic holders and 11 formats; horizon+1 rows and each series named once after real solves.", "3/C19"),
  'C02': ("post-solve residual monitor with scheme-agnostic bound, finiteness, pinned lags/exogenous, exact derived-only values; hostile overflow / inf-nan / failpoint systems",
          "Held on K observed solves: every normal return of the real solver is judged equation by equation against the submitted text by an independent evaluator; hostile systems must fail loudly or be finite and consistent. First-order bound for non-linear systems.", "3/C02"),
  'C12': ("value-preservation post-condition on AddTerm histories and create_equation_from_terms (exact valuations); in-situ AddTerm wrapper",
